@@ -547,7 +547,13 @@ def c01_monitor(s, a, rt):
         sends_here = any(rt.act(int(l.split(" ")[3]), int(l.split(" ")[1]))[2] for l in entries if l.startswith("B "))
         # (event 0 is the name `__initial__`: sent by the *user* to a machine that holds a state it is an undeclared
         # event like any other — the engine's own activation trigger is not an op of the history)
-        if op[0] == "send" and not sends_here and prev_cur != "-":
+        # (the option assigned after construction: the monitor's scenario header carries the constructor's value, so
+        # sends made while the two differ are left to the correspondence with the engine model)
+        allow_now = s.allow
+        for o in s.ops[:i]:
+            if o[0] == "set_allow":
+                allow_now = bool(o[1])
+        if op[0] == "send" and not sends_here and prev_cur != "-" and allow_now == s.allow:
             out = "ok" if R[2] == "ok" else "err:" + R[3]
             var = sum(1 for o in s.ops[:i] if o[0] == "add_listener")
             mons.append(f"mon i={i} tid={kv['tid']} pre={tok_of_repr(prev_cur)} ev={op[1]} out={out} "
